@@ -533,6 +533,8 @@ LayoutCoreAlphabet ==  \* C02: the core of LayoutAlphabet, small enough for all 
     [k |-> "ascii", bs |-> <<65, 66, 67>>], Lab("a"), Const("n", Num(3)), DotSet(Bin("+", Dot, Num(5))), Rep(2, << W(<< B >>), [k |-> "ascii", bs |-> <<72, 105>>] >>),
     Inc(2), Lab("b"), [k |-> "asciic", cs |-> << [e |-> Sym("n")], [q |-> <<100, 101>>], [e |-> Num(10)] >>],
     [k |-> "asciic", cs |-> << [u |-> <<1078, 1091, 233>>], [e |-> Sym("n")] >>] }
+LayoutThreeAlphabet == \* C02: three linked files of one or two statements each, the earlier ones free of anything that has to wait
+  { I0("nop"), By(<< Num(1), Num(2) >>), Lab("a"), W(<<A, Dot>>) }
 LayoutIncAlphabet ==   \* C02: an include whose file name is only known after a later symbol (the directive stays pending; everything behind it moves)
   { IncC(2, "sx"), IncC(1, "sy"), Const("sx", Num(50)), Const("sy", Num(49)), Lab("a"), W(<<A, Dot>>), I1("movr", A), By(<< Num(1) >>), [k |-> "even"], Inc(2) }
 LayoutIncFiles == << [name |-> "i1", body |-> << Lab("x"), W(<< Sym("x"), Dot >>), By(<< Num(7) >>) >>],
